@@ -47,8 +47,8 @@ def _history(draw, gen: int, max_ops: int):
     zone_ids = sorted(con.zones_of(inst))
     targets = [("at", 0)] + [("ac", n) for n in ac_ids] + [("acstate", n) for n in ac_ids] + [("zone", z) for z in zone_ids[:6]] + \
         [("both_ac", n) for n in ac_ids] + [("both_acstate", n) for n in ac_ids]
-    sub = st.tuples(st.sampled_from(targets), st.integers(0, apiops.POOL - 1), st.booleans(), st.integers(0, 5)).map(
-        lambda t: ["subscribe", t[0][0], t[0][1], t[1], t[2], t[3] == 0])
+    sub = st.tuples(st.sampled_from(targets), st.integers(0, apiops.POOL - 1), st.booleans(), st.integers(0, 5), st.integers(0, 5)).map(
+        lambda t: ["subscribe", t[0][0], t[0][1], t[1], t[2], t[3] == 0, t[4] == 0])
     unsub = st.integers(0, 1000).map(lambda k: ["unsubscribe_nth", k])
     first = draw(st.lists(sub, min_size=2, max_size=10))
     body = draw(st.lists(st.one_of(apiops.frame_ops(inst), apiops.frame_ops(inst), apiops.frame_ops(inst), sub, unsub),
@@ -153,7 +153,8 @@ def shards(tier: str):
 
 def floors(tier: str):
     return {"notified": 300, "silent-repeat": 300, "subscribe-twice": 100, "unsubscribe": 100, "raising-subscriber": 100,
-            "subscriber-calls": 2000, "same-callable-both-ways": 60}
+            "subscriber-calls": 2000, "same-callable-both-ways": 60,
+            "reentrant-subscriber": 100}
 
 
 def run_shard(spec, seed: int, tier: str):
